@@ -269,13 +269,16 @@ struct case_runner {
         vh::emit(head + " " + pstr(), evs);
     }
 
+    // second thread: wait (bounded: 1 s per op over all its resolutions) until source k is parked on its
+    // future, then resolve it
+    std::chrono::steady_clock::time_point helper_deadline;
+    void helper_begin() { helper_deadline = std::chrono::steady_clock::now() + std::chrono::seconds(1); }
     bool helper_resolve(int k) {
-        // second thread: wait (bounded) until source k is parked on its future, then resolve it
-        for (int i = 0; i < 20000; ++i) {
+        for (;;) {
             if (srcs[k]->awaiting.load(std::memory_order_acquire)) return srcs[k]->resolve();
-            std::this_thread::sleep_for(std::chrono::microseconds(100));
+            if (std::chrono::steady_clock::now() > helper_deadline) return false;
+            std::this_thread::sleep_for(std::chrono::microseconds(50));
         }
-        return false;
     }
 
     bool valid_src(const std::vector<std::string> &w, std::size_t from) {
@@ -291,6 +294,7 @@ struct case_runner {
         if (helpers.empty()) {
             gen.reset();
         } else {
+            helper_begin();
             std::thread th([&] {
                 for (int k : helpers)
                     if (!helper_resolve(k)) bad = true;
@@ -376,6 +380,7 @@ struct case_runner {
                 std::vector<int> ks;
                 for (std::size_t i = 2; i < w.size(); ++i) ks.push_back(atoi(w[i].c_str()));
                 std::atomic<bool> bad{false};
+                helper_begin();
                 std::thread th([&] {
                     for (int k : ks)
                         if (!helper_resolve(k)) bad = true;
